@@ -13,8 +13,14 @@ Ltac dsl2 := cbv [dot_interp_src linear_interp_with_linear_extrap_src extrapolat
             cbn [fst snd].
 (** evaluate lengths of the form S (S m) - 1, min (S (S m)) 1, (S m =? S m), ... *)
 Ltac lens := repeat (progress (cbn [fst snd Nat.min Nat.max Nat.sub Nat.add Nat.eqb];
-                               rewrite ?Nat.add_0_r, ?Nat.add_1_r, ?Nat.eqb_refl)).
+                               rewrite ?Nat.add_0_r, ?Nat.add_1_r, ?Nat.min_0_r, ?Nat.sub_0_r, ?Nat.eqb_refl)).
 Ltac tests := repeat match goal with |- context [fltb ?a ?b] => destruct (fltb a b) end.
+
+Lemma iter_succ_r {A : Type} n (f : A -> A) x : Nat.iter (S n) f x = Nat.iter n f (f x).
+Proof.
+  induction n as [|n IH]; [reflexivity|].
+  change (f (Nat.iter (S n) f x) = f (Nat.iter n f (f x))). now rewrite IH.
+Qed.
 
 Section InterpSrcThm.
   Context {F : Type} {o : Ops F} {Fc : FieldC o}.
@@ -92,7 +98,7 @@ Section InterpSrcThm.
   Proof.
     induction k as [|k IH]; intros m y.
     - change (Nat.iter 0 extrapolate_both_src (S (S m), y)) with (S (S m), y). cbn [fst snd]. split; [lia|]. intros i Hi. reflexivity.
-    - rewrite Nat.iter_succ_r. destruct (extrapolate_both_matches m y) as [L P].
+    - rewrite iter_succ_r. destruct (extrapolate_both_matches m y) as [L P].
       destruct (extrapolate_both_src (S (S m), y)) as [n2 y2]. cbn [fst snd] in L, P. subst n2.
       destruct (IH (S (S m)) y2) as [L2 P2]. split; [rewrite L2; lia|].
       intros i Hi. rewrite P2 by lia. unfold pad_x. cbn [pad]. fold (@pad_x F o).
